@@ -45,13 +45,14 @@ def main():
     try:
         shutil.copy(os.path.join(seed, demos[0]), os.path.join(wt, demo_dir, demo_name))
         rc, out = sh("go test -vet=off -count=1 ./%s/ 2>&1 | tail -15" % demo_dir, cwd=wt)
-        rc0, out0 = sh("go test -vet=off -count=1 ./%s/" % demo_dir, cwd=wt)
+        race = "-race " if "-race" in readme else ""
+        rc0, out0 = sh("go test %s-vet=off -count=1 ./%s/" % (race, demo_dir), cwd=wt)
         meta["steps"]["demo_without_patch"] = "pass" if rc0 == 0 else "FAIL: " + out0[-600:]
         rc, out = sh("git apply %s" % patch, cwd=wt)
         meta["steps"]["patch_applies"] = rc == 0 or out[-300:]
         rc, out = sh("go build ./... ", cwd=wt)
         meta["steps"]["builds"] = rc == 0 or out[-600:]
-        rc1, out1 = sh("go test -vet=off -count=1 ./%s/" % demo_dir, cwd=wt)
+        rc1, out1 = sh("go test %s-vet=off -count=1 ./%s/" % (race, demo_dir), cwd=wt)
         meta["steps"]["demo_with_patch"] = "fails (as required)" if rc1 != 0 else "PASSES (seed not effective)"
         os.remove(os.path.join(wt, demo_dir, demo_name))
         rc2, out2 = sh("go test -vet=off -count=1 ./... 2>&1 | grep -v 'no test files'", cwd=wt)
